@@ -1,4 +1,5 @@
 import Acra.Lemmas.MpegReencode
+import Acra.Lemmas.ReviewC06
 namespace Acra.Props.C06
 open Acra.Py Acra.Model.MPEGTS Acra.Lemmas.MPEGTS Acra.Lemmas.MpegReencode
 
@@ -31,5 +32,18 @@ example : (Pkt.unpack Pkt.fresh [0x47, 0, 0, 0x30, 3, 0x10, 0xAA, 0xBB, 1, 2, 3]
 theorem MPEGTS_reencode_total (t ts : TS) (buf : Bytes) (r : Bool) (h : TS.unpack t buf = (ts, .ok r)) :
     (TS.pack ts).2 = .error .generic ∨ ∃ b, (TS.pack ts).2 = .ok b :=
   packBlocks_ok_or_generic ts.blocks (TS_unpack_bounded t buf ts r h)
+
+/-- witness for the hypothesis of `MPEGTS_reencode_total` with two packets (and for its "succeeds" alternative):
+    the stream of two well-formed packets is accepted and decodes to two blocks -/
+example : ∃ ts, TS.unpack TS.fresh (Pkt_bytes { Pkt.fresh with adaption_ctrl := 1, payload := [1] } ++
+      Pkt_bytes { Pkt.fresh with adaption_ctrl := 1, payload := [2] }) = (ts, .ok true) ∧ ts.blocks.length = 2 := by
+  have h := TS_unpack_chunks TS.fresh
+    [Pkt_bytes { Pkt.fresh with adaption_ctrl := 1, payload := [1] }, Pkt_bytes { Pkt.fresh with adaption_ctrl := 1, payload := [2] }]
+    (by decide +kernel)
+    (by
+      intro c hc
+      simp only [List.mem_cons, List.not_mem_nil, or_false] at hc
+      rcases hc with rfl | rfl <;> rw [Pkt_unpack_bytes _ _ (by decide) (by decide) (by decide)])
+  exact ⟨_, by simpa using h, by simp⟩
 
 end Acra.Props.C06
